@@ -262,10 +262,106 @@ def norm_atom(a, names=None):
     return (True, repr(a))
 
 
+_ACC = {}
+
+
+def accessor_subject(crate, subj):
+    """for the result of an accessor `fn(x) -> Option<..> { match x { W(p) => Some(p), _ => None } }` (Node::expression and its like, recognised on
+    the function's own body): (x, W, known) where `known` says that x is what a search for kinds of node type W only returned; else None"""
+    if subj[0] != "phi" or len(subj[2]) != 2 or not (isinstance(subj[1], tuple) and len(subj[1]) == 2 and subj[1][1] == 0):
+        return None
+    path = subj[1][0]
+    key = (id(crate), path)
+    if key not in _ACC:
+        w = None
+        tb = crate.bodies.get(path)
+        try:
+            if tb is not None and tb.arg_count == 1 and tb.local_ty(0).startswith("std::option::Option<"):
+                rows = ret_table(tb)
+                some = [(g, v) for (g, v) in rows if v[0] == "agg" and v[2].endswith("Option::Some") and len(v[3]) == 1]
+                none = [(g, v) for (g, v) in rows if v[0] == "agg" and v[2].endswith("Option::None")]
+                if len(rows) == 2 and len(some) == 1 and len(none) == 1:
+                    pay = some[0][1][3][0]
+                    if pay[0] == "proj" and pay[2][0] == "f" and pay[2][1] == 0 and pay[1][0] == "proj" and pay[1][2][0] == "dc" and pay[1][1] == ("param", 1):
+                        cand = pay[1][2][1]
+                        if some[0][0] == [["is(arg1; %s)" % cand]] and none[0][0] == [["!is(arg1; %s)" % cand]]:
+                            w = cand
+        except Exception:
+            w = None
+        _ACC[key] = w
+    w = _ACC[key]
+    if w is None:
+        return None
+    some = [m for m in subj[2] if m[0] == "agg" and m[2].endswith("Option::Some") and len(m[3]) == 1]
+    none = [m for m in subj[2] if m[0] == "agg" and m[2].endswith("Option::None")]
+    if len(some) != 1 or len(none) != 1:
+        return None
+    x = some[0][3][0]
+    if not (x[0] == "proj" and x[2][0] == "f" and x[2][1] == 0 and x[1][0] == "proj" and x[1][2] == ("dc", w)):
+        return None
+    n = x[1][1]
+    known = False
+    if n[0] == "elem":
+        src = n[1][1] if n[1][0] == "iter" else n[1]
+        if src[0] == "call" and src[1] in core.SEARCH_FNS and len(src[2]) == 2:
+            kinds = core.search_kinds(src[2][0])
+            wr = kind_wrappers(crate)
+            known = bool(kinds and wr and all(wr.get(k_) == {w} for k_ in kinds))
+    return n, w, known
+
+
+def kind_wrappers(crate):
+    """{Target kind: set of Node wrappers that have a variant of that kind} read from Node::as_target and the per-type classifiers"""
+    key = (id(crate), "#kinds")
+    if key in _ACC:
+        return _ACC[key]
+    out = {}
+    try:
+        at = crate.bodies.get("analyzer::ast::Node::as_target")
+        if at is not None:
+            for g, v in ret_table(at):
+                vs = variant_of_guard(g)
+                if not vs or len(vs) != 1:
+                    out = {}
+                    break
+                wrapper = vs[0]
+                if v[0] == "agg" and v[1] == "adt" and "::Target::" in v[2]:
+                    out.setdefault(v[2].rsplit("::", 1)[-1], set()).add(wrapper)
+                elif v[0] == "call" and v[1] in crate.bodies:
+                    for _g2, v2 in ret_table(crate.bodies[v[1]]):
+                        if v2[0] == "agg" and v2[1] == "adt" and "::Target::" in v2[2]:
+                            out.setdefault(v2[2].rsplit("::", 1)[-1], set()).add(wrapper)
+                        else:
+                            raise ValueError("unclassified row")
+                else:
+                    out = {}
+                    break
+    except Exception:
+        out = {}
+    _ACC[key] = out
+    return out
+
+
+def _accessor_atom(body, a):
+    """`is(node.expression(); Some)` is `is(node; Expression)`, and true for what a search for expression kinds returned"""
+    if a[0] not in ("isin", "isnot") or len(a) < 3 or tuple(a[2]) != ("Some",) or (a[0] == "isnot" and len(a) > 3 and a[3]):
+        return a
+    if body.path.startswith("analyzer::ast::"):
+        return a  # (the accessors and classifiers themselves)
+    r = accessor_subject(body.crate, a[1])
+    if r is None:
+        return a
+    n, w, known = r
+    if known:
+        return ("true", ("const", "bool", True)) if a[0] == "isin" else ("true", ("const", "bool", False))
+    return (a[0], n, (w,)) if a[0] == "isin" else ("isnot", n, (w,), ())
+
+
 def block_guard(body, bb, names=None):
     raw = core.block_guard_atoms(body, bb)
     if raw is None:
         return None
+    raw = [[_accessor_atom(body, a) for a in conj] for conj in raw]
     for pbb in work_list_of_block(body, bb):
         # code that runs for an element of a work list runs under the condition under which the element was queued
         praw = core.block_guard_atoms(body, pbb)
